@@ -1250,6 +1250,7 @@ void IGXMLScanner::scanReset(const InputSource& src)
     fStandalone = false;
     fErrorCount = 0;
     fHasNoDTD = true;
+    fXMLVersion = XMLReader::XMLV1_0;
     fSeeXsi = false;
 
     // Reset PSVI context
